@@ -36,7 +36,7 @@ fn simple_pattern(p: &mut Parser) -> Option<MarkerClosed> {
         p.close(m, MySyntaxKind::ErrorTree);
         return None;
     }
-    Some(match p.peek() {
+    Some(match p.current() {
         T![true] | T![false] => {
             let m = p.open();
             p.advance();
@@ -148,7 +148,7 @@ fn simple_pattern(p: &mut Parser) -> Option<MarkerClosed> {
 }
 
 fn struct_pattern_field_list(p: &mut Parser) {
-    assert!(p.at(T!['{']));
+    assert!(p.current() == T!['{']);
     let m = p.open();
     p.expect(T!['{']);
     while !p.eof() && !p.at(T!['}']) {
@@ -164,7 +164,7 @@ fn struct_pattern_field_list(p: &mut Parser) {
 }
 
 fn struct_pattern_field(p: &mut Parser) {
-    assert!(p.at(T![ident]));
+    assert!(p.current() == T![ident]);
     let m = p.open();
     p.expect(T![ident]);
     if p.at(T![:]) {
